@@ -199,6 +199,39 @@ def gen_ls_case(rng, tag=""):
     return case
 
 
+def gen_lsscript_case(rng):
+    """arbitrary-oracle line search: scripted (phi, phi') answers with many exact ties and non-finite values"""
+    dphi0 = rng.choice([-1.0, -1.0, -0.5, -4.0, -0.125, -1.0, 0.0, 1.0]) if rng.random() < 0.3 else -1.0
+    vals = [0.0]
+    script = []
+    for _ in range(rng.randint(1, 9)):
+        r = rng.random()
+        if r < 0.07:
+            f = rng.choice(["fpe", float("nan"), float("inf"), 1e200, -1e200])
+        elif r < 0.35:
+            f = rng.choice(vals)                     # exact tie with an earlier value
+        else:
+            f = rng.choice([-2.0, -1.0, -0.75, -0.5, -0.25, -0.125, -0.0625, 0.0, 0.125, 0.5, 1.0, 3.0])
+        if isinstance(f, float) and math.isfinite(f):
+            vals.append(f)
+        d = rng.choice([-2.0, -1.0, -0.5, -0.25, -0.0625, 0.0, 0.0625, 0.25, 0.5, 1.0, 2.0])
+        script.append([f, d])
+    kw = {}
+    c1 = rng.choice([2.0 ** -13, 0.125, 0.25, 0.5, 1e-4])
+    c2 = rng.choice([0.9, 0.5, 0.75, 0.25, 0.9375])
+    if c1 < c2:
+        kw["c1"], kw["c2"] = c1, c2
+    if rng.random() < 0.5:
+        kw["preferred_initial_step_size"] = rng.choice([1.0, 0.5, 2.0, 0.25])
+    if rng.random() < 0.3:
+        kw["max_step_size"] = rng.choice([4.0, 2.0, 8.0, 1.0])
+    kw["max_iterations"] = rng.choice([1, 2, 3, 4, 6, 10])
+    kw["max_zoom_iterations"] = rng.choice([0, 1, 2, 3, 4, 6])
+    return dict(kind="lsscript", phi0=0.0, dphi0=dphi0, script=script,
+                default=[rng.choice([1.0, -0.5, 0.0]), rng.choice([1.0, -1.0, 0.0])], ls=kw,
+                fkm1=rng.choice([None, None, 1.0, 0.125, 0.0, -1.0]), longest=rng.choice([None, None, None, 4.0, 1.0]))
+
+
 def gen_min_case(rng):
     spec = gen_energy(rng)
     x0 = gen_start(rng, spec, box_ok=False)
@@ -308,7 +341,7 @@ def do_ls(ctx, batch, case):
     run = I.run_line_search(case)
     rec = run["rec"]
     impl = run["outcome"]
-    ctx.stat("ls:dir=" + case.get("dkind", "?"))
+    ctx.stat("ls:dir=" + case.get("dkind", "scripted-oracle" if case.get("kind") == "lsscript" else "?"))
     ctx.stat("ls:n_evals=" + (str(len(rec.events)) if len(rec.events) < 6 else "6+"))
     ctx.stat("ls:outcome=" + ("raised:" + impl["raised"] if "raised" in impl else
                               ("success" if impl["ret"]["success"] else "fail")))
@@ -340,7 +373,32 @@ def oracle_ls(case, run=None):
                 {"site": "LineSearch", "kind": "foreign-energy"})
     if not run["success"]:
         return None
+    if case.get("kind") == "lsscript":
+        return script_wolfe(case, run)
     return I.exact_wolfe(case, run)
+
+
+def script_wolfe(case, run):
+    """strong Wolfe on what the scripted oracle answered at the returned energy object (exact rationals)"""
+    ret = run["ret"]
+    f, d = float(ret.value), float(ret.gradient.asnumpy()[0])
+    a = float(ret.position.asnumpy()[0])
+    ls = case["ls"]
+    c1, c2 = Fraction(float(ls.get("c1", 1e-4))), Fraction(float(ls.get("c2", 0.9)))
+    phi0, dphi0 = Fraction(case["phi0"]), Fraction(case["dphi0"])
+    if not (math.isfinite(f) and math.isfinite(d)):
+        return None    # NaN answered *inside* _zoom's bracket: not a smooth energy; outside the model (design.d/C16.md)
+    if not dphi0 < 0:
+        return ("success although phi'(0) is not negative", {"site": "LineSearch", "kind": "not-descent"})
+    tol = Fraction(1, 10 ** 9)
+    rhs = phi0 + c1 * Fraction(a) * dphi0
+    if Fraction(f) > rhs + tol * (abs(Fraction(f)) + abs(phi0) + abs(c1 * Fraction(a) * dphi0)):
+        return (f"sufficient decrease violated at the returned point: phi({a})={f} > {float(rhs)}",
+                {"site": "LineSearch", "kind": "wolfe1"})
+    if abs(Fraction(d)) > c2 * abs(dphi0) * (1 + tol):
+        return (f"curvature condition violated at the returned point: |phi'({a})|={abs(d)} > {float(c2 * abs(dphi0))}",
+                {"site": "LineSearch", "kind": "wolfe2"})
+    return None
 
 
 def min_oracle(case, log):
@@ -348,6 +406,8 @@ def min_oracle(case, log):
     if "error" in log:
         return None
     vals = [log["start_value"]] + [v for _, v in log["checks"]]
+    if not all(math.isfinite(v) for v in vals + [log["value"]]):
+        return None     # NaN/inf energies: `nan > x` is False in the code as upstream; outside the model (see design.d)
     for i in range(1, len(vals)):
         if not vals[i] <= vals[i - 1]:
             return (f"{case['minimizer']} accepted a step from energy {vals[i-1]!r} to {vals[i]!r}",
@@ -398,8 +458,8 @@ def do_min(ctx, batch, case):
                 ctx.counterexample(sub, *r)
     # (b) acceptance loop: replay the recorded oracle answers through Descent.minimize
     if "error" not in log:
-        searches = [[I.frac(s["value_out"]), s["gz_out"], s["success"]] for s in log["searches"]]
         if all(math.isfinite(s["value_out"]) for s in log["searches"]) and math.isfinite(log["start_value"]):
+            searches = [[I.frac(s["value_out"]), s["gz_out"], s["success"]] for s in log["searches"]]
             line = dict(op="descent", start=log["start"], e0=[I.frac(log["start_value"]), log["gz0"]],
                         searches=searches, checks=[c for c, _ in log["checks"]])
             impl = dict(status=log["status"], value=I.frac(log["value"]),
@@ -529,7 +589,7 @@ def do_twins(ctx, batch, case, recorded=None, which=None):
 
 def oracle(case):
     k = case.get("kind")
-    if k == "ls":
+    if k in ("ls", "lsscript"):
         return oracle_ls(case)
     if k == "min":
         return min_oracle(case, I.run_minimizer(case))
@@ -561,6 +621,15 @@ def shrink(case):
             c = copy.deepcopy(case)
             c["limit"] = case["limit"] - 1
             yield c
+    elif k == "lsscript":
+        for i in range(len(case["script"]) - 1, -1, -1):
+            c = copy.deepcopy(case)
+            del c["script"][i]
+            yield c
+        for key in list(case["ls"].keys()):
+            c = copy.deepcopy(case)
+            del c["ls"][key]
+            yield c
     elif k == "script":
         for i in range(len(case["searches"])):
             c = copy.deepcopy(case)
@@ -586,7 +655,7 @@ def shrink(case):
 
 def _dispatch(ctx, batch, case):
     k = case.get("kind")
-    {"ls": do_ls, "min": do_min, "script": do_script, "twins": do_twins}[k](ctx, batch, case)
+    {"ls": do_ls, "lsscript": do_ls, "min": do_min, "script": do_script, "twins": do_twins}[k](ctx, batch, case)
 
 
 def run(ctx):
@@ -598,6 +667,8 @@ def run(ctx):
         ctx.stat("corpus")
     for _ in range(ctx.n(160, 2500)):
         do_ls(ctx, batch, gen_ls_case(ctx.rng))
+    for _ in range(ctx.n(300, 5000)):
+        do_ls(ctx, batch, gen_lsscript_case(ctx.rng))
     for _ in range(ctx.n(40, 500)):
         do_min(ctx, batch, gen_min_case(ctx.rng))
     for _ in range(ctx.n(400, 6000)):
@@ -610,7 +681,7 @@ def run(ctx):
 def search(ctx):
     """targeted search on the real code only (used when a proof / the correspondence broke)"""
     for i in range(ctx.n(600, 4000)):
-        case = [gen_ls_case, gen_script_case, gen_twins_case, gen_min_case][i % 4](ctx.rng)
+        case = [gen_ls_case, gen_lsscript_case, gen_script_case, gen_twins_case, gen_min_case][i % 5](ctx.rng)
         try:
             r = oracle(case)
         except Exception:  # noqa: BLE001
